@@ -67,6 +67,8 @@ def canBeCastedTo (isSubclassOf : Nat → Nat → Bool) : Ty → Ty → Bool
   | _, .unknown => true
   | .int, .bit => true
   | .bit, .int => true
+  | .bit, .bits 1 => true
+  | .bits 1, .bit => true
   | .int, .bits _ => true
   | .bits _, .int => true
   | .string, .code => true
@@ -74,6 +76,21 @@ def canBeCastedTo (isSubclassOf : Nat → Nat → Bool) : Ty → Ty → Bool
   | .list a, .list b => canBeCastedTo isSubclassOf a b
   | .record a _, .record b _ => a == b || isSubclassOf a b
   | a, b => a == b
+
+/-- `Type::common_typ`: what two values have in common when neither can be cast to the other; `commonClass a b` =
+`record(a).common_class(symbol_map, b)`, `name id` = the name of a record -/
+def commonTyp (isSubclassOf : Nat → Nat → Bool) (commonClass : Nat → Nat → Option Nat) (name : Nat → String) : Ty → Ty → Option Ty
+  | .record a _, .record b _ =>
+    match commonClass a b with
+    | some c => some (.record c (name c))
+    | none => none
+  | .list a, .list b =>
+    if canBeCastedTo isSubclassOf a b then some (.list b)
+    else if canBeCastedTo isSubclassOf b a then some (.list a)
+    else match commonTyp isSubclassOf commonClass name a b with
+      | some t => some (.list t)
+      | none => none
+  | _, _ => none
 
 end Ty
 end Ide
